@@ -8,36 +8,60 @@
   `BOOT_TIME` (lead L2), when the pid-0 / negative-pid refusals go away, or when a method is wired to
   another signal.
 
+  ATOMICITY (every theorem of this file): kernel events happen BETWEEN psutil calls, never inside one.  The window
+  between the guard (`_raise_if_pid_reused`) and `os.kill` / the setter's native call — inherent without pidfd —
+  is outside the model and outside the correspondence; nothing here bounds what a PID recycling inside that
+  window does (fact `windowCalls` pins which calls `_send_signal` makes inside it).
+  ONE INCARNATION PER TICK: `HistOK` / `HistOKb` exclude `spawnSameTick` (psutil's documented assumption);
+  `C01_same_tick_counterexample` shows the claim is false without it.
+  BOOT TIME: `BtOK cfg.createNoneTest b` = "b ≠ 0, unless `create_time()` tests `BOOT_TIME is not None`"
+  (fixes/C02-boottime-zero.diff; with that fix landed the hypothesis is void: see Props/C02.lean).
+
   Histories: any list of kernel events (spawn / exit / reap / tick / clock step / **permission change**: from now
   on the kernel refuses kill / setpriority / ioprio_set / sched_setaffinity / prlimit on a PID with EPERM or EACCES,
   or allows them again) and psutil calls
   (Process(pid), is_running, signals, setters, ppid, boot_time, create_time, ==, hash, process_iter,
-  oneshot() entry/exit, str) — the hypotheses are that the published boot time is never 0 (`b0 ≠ 0`) and that
-  `/proc/pid/stat` can always be opened (`HistOK`; what happens otherwise is characterised at the end of the file,
-  and `C01_known_start_no_wrong_owner` holds without that hypothesis).  The effect log holds every OS call psutil
+  oneshot() entry/exit, str) — the hypotheses are that the published boot time is never 0 (`BtOK`, see above) and that
+  `/proc/pid/stat` can always be opened (`HistOK` = no `setBtime 0` unless fixed, no `hide p true`, no `spawnSameTick`;
+  what happens otherwise is characterised at the end of the file, and the HEADLINE theorem
+  `C01_known_start_no_wrong_owner` holds without the readability hypothesis).  The effect log holds every OS call psutil
   made, carried out or refused by the kernel (`Eff.res`).  The object list of a state holds the objects built by `Process(pid)` AND those built and
   yielded by `process_iter()` (Props/C02.lean: `C02_iter_ghost_meaning`, `C02_iter_handles_valid`), so
   "object i" below ranges over both kinds.
 -/
 import PsutilModel.Proofs.C01Args
 import PsutilModel.Proofs.C01Hid
+import PsutilModel.Proofs.C01Pid0
 import PsutilModel.Model.C01Gen
 namespace Psutil.C01
 open Spec
 
 /-! ## Obligations on the translator's facts -/
 
-/-- every guard flag, both fix flags, both refusals and the signal numbers are as the proofs need -/
+/-- the guard flags of the five signal methods and the four setters (NOT `ppid`: a query, harmless for C01), both
+    fix flags, the three refusals (PID 0 in `_send_signal`, PID 0 in `_pslinux.Process.rlimit`, negative PID in
+    `_init`), the signal numbers and the full affinity mask are as the proofs need -/
 theorem cfg_good : cfg.Good := by
-  refine ⟨⟨?_, ?_⟩, ?_, ?_, ?_, ?_, ?_, ?_, ?_, ?_, ?_, ?_, ?_, ?_, ?_⟩ <;> decide
+  refine ⟨⟨?_, ?_⟩, ?_, ?_, ?_, ?_, ?_, ?_, ?_, ?_, ?_, ?_, ?_, ?_, ?_, ?_⟩ <;> decide
 
-/-- **C01_all_guarded.** Every signal method and every setter named by the property calls
+/-- the check-then-kill window of `_send_signal` holds no call: between `self._raise_if_pid_reused()` and `os.kill`
+    only attribute loads happen (and the PID-0 refusal).  The window itself is outside every theorem (ATOMICITY); this
+    obligation breaks when an edit widens it (a `/proc` scan, `self.name()`, … between guard and kill). -/
+theorem cfg_window : Gen.C01.windowCalls = [] := by decide
+
+/-- every platform setter hands `self.pid` to its native entry point, at exactly one call site (two for `rlimit`: the
+    get and the set form) — a retry, a second call with other values or another PID expression breaks this -/
+theorem cfg_native_pid :
+    Gen.C01.nativePidArgs = [("nice_set", ["self.pid"]), ("ionice_set", ["self.pid"]),
+      ("cpu_affinity_set", ["self.pid"]), ("rlimit", ["self.pid", "self.pid"])] := by decide
+
+/-- **C01_all_guarded** (restates part of `cfg_good` in the property's own words; no extra strength). Every signal method and every setter named by the property calls
     `_raise_if_pid_reused()` before its OS effect. -/
 theorem C01_all_guarded :
     ∀ m ∈ ["send_signal", "suspend", "resume", "terminate", "kill", "nice", "ionice", "rlimit", "cpu_affinity"],
       m ∈ Gen.C01.guardedMethods := by decide
 
-/-- **signalMap_correct.** suspend→SIGSTOP, resume→SIGCONT, terminate→SIGTERM, kill→SIGKILL. -/
+/-- **signalMap_correct** (restates part of `cfg_good`). suspend→SIGSTOP, resume→SIGCONT, terminate→SIGTERM, kill→SIGKILL. -/
 theorem signalMap_correct :
     Gen.C01.signalMap = [("suspend", SIGSTOP), ("resume", SIGCONT), ("terminate", SIGTERM), ("kill", SIGKILL)] := by
   decide
@@ -48,15 +72,80 @@ theorem signalMap_correct :
     `ioprio_set`, `sched_setaffinity`, `prlimit` psutil ever issued) was delivered while the PID was
     owned by the very incarnation the asking object was built for, under exactly the object's PID,
     and — for signals — to a PID > 0. -/
-theorem C01_no_wrong_owner (b0 : Nat) (hb : b0 ≠ 0) (h : List Ev) (hh : HistOK h) :
+theorem C01_no_wrong_owner (b0 : Nat) (hb : BtOK cfg.createNoneTest b0) (h : List Ev) (hh : HistOK cfg.createNoneTest h) :
     ∀ e ∈ (run cfg (St.init b0) h).log, EffOK (run cfg (St.init b0) h).ps.objs e :=
   run_log cfg_good h _ hh (init_inv _ hb) (fun e he => by simp [St.init] at he)
 
-/-- **C01_never_group.** No signal is ever sent to PID 0 or a negative PID. -/
-theorem C01_never_group (b0 : Nat) (hb : b0 ≠ 0) (h : List Ev) (hh : HistOK h) :
+/-- **C01_never_group.** No signal is ever sent to PID 0 or a negative PID — after ANY history, unreadable stat
+    files included (`HistOKb`; corollary of `C01_known_start_no_wrong_owner`).  Scope: the `os.kill` calls of the five
+    `Process` signal methods (the only calls that add a `.kill` entry to the model's log); the `kill(pid, 0)` existence
+    probe of `psutil.pid_exists()` / `Process.wait()` is C04's subject, `psutil.Popen` is outside the model. -/
+theorem C01_never_group (b0 : Nat) (hb : BtOK cfg.createNoneTest b0) (h : List Ev) (hh : HistOKb cfg.createNoneTest h) :
     ∀ e ∈ (run cfg (St.init b0) h).log, e.kind = .kill → 0 < e.pid := fun e he hk => by
-  obtain ⟨_, _, _, _, hpos⟩ := C01_no_wrong_owner b0 hb h hh e he
+  obtain ⟨_, _, _, hpos, _⟩ := run_log2 cfg_good h _ hh (init_inv2 _ hb) (fun e he => by simp [St.init] at he) e he
   exact hpos hk
+
+/-- **C01_no_pid0_effect.** After any history that spawns no PID 0 (Linux lists none), NO OS call of any kind —
+    signal or setter, carried out or refused — was made with a PID ≤ 0, on top of `EffOK` (right incarnation, the
+    object's own PID).  For setpriority / ioprio_set / sched_setaffinity / prlimit PID 0 would mean "the calling
+    process". -/
+theorem C01_no_pid0_effect (b0 : Nat) (hb : BtOK cfg.createNoneTest b0) (h : List Ev) (hh : HistOK cfg.createNoneTest h)
+    (hz : HistNoPid0 h) :
+    ∀ e ∈ (run cfg (St.init b0) h).log, EffOKStrict (run cfg (St.init b0) h).ps.objs e := fun e he => by
+  have hok := C01_no_wrong_owner b0 hb h hh e he
+  have hnz := run_nozero cfg_good.toBootGood h _ hh hz (init_inv _ hb) (init_nozero b0)
+  refine ⟨hok, ?_⟩
+  obtain ⟨o, ho, hp, _, _⟩ := hok
+  have := hnz.objs o (List.mem_of_getElem? ho)
+  rw [hp]; omega
+
+/-- **C01_rlimit_refuses_zero.** `_pslinux.Process.rlimit` refuses PID 0 itself ("can't use prlimit() against PID 0
+    process"): in ANY state a PID-0 object never adds to the log through `rlimit` (consumes `cfg_good.rlimitPid0Refused`). -/
+theorem C01_rlimit_refuses_zero (s : St) (i : Nat) (o : PObj) (args : List Int)
+    (ho : s.ps.objs[i]? = some o) (h0 : o.pid = 0) :
+    (step cfg s (.c (.setter i .rlimit args))).1.log = s.log := by
+  rw [step_method cfg s (call := .setter i .rlimit args) rfl ho rfl]
+  cases heff : (setterM cfg s.kern s.ps o .rlimit args).eff with
+  | none => rfl
+  | some e =>
+    obtain ⟨_, a, _, ha, _, _⟩ := setterM_eff_shape _ _ _ _ _ _ heff
+    cases args with
+    | nil => simp [setterArgs] at ha
+    | cons r lim => simp [setterArgs, h0, cfg_good.rlimitPid0Refused] at ha
+
+/-- **C01_owner_meaning.** What the specification calls the owner of an effect (`Eff.owner`, compared with the asking
+    object's `ghost` by `EffOK`) is the start of the incarnation that holds, in the kernel's table at the instant of
+    the call, the very PID that was handed to the OS — in any state, for any call. -/
+theorem C01_owner_meaning (s : St) (call : Call) (e : Eff)
+    (h : (step cfg s (.c call)).1.log = e :: s.log) :
+    ∃ p : Nat, e.pid = (p : Int) ∧ e.owner = s.kern.owner p ∧ e.owner ≠ none := by
+  cases htg : call.target with
+  | none =>
+    rw [(step_no_target cfg s htg).1] at h
+    exact absurd (congrArg List.length h) (by simp)
+  | some i =>
+    cases ho : s.ps.objs[i]? with
+    | none =>
+      rw [step_bad_index cfg s htg ho] at h
+      exact absurd (congrArg List.length h) (by simp)
+    | some o =>
+      obtain ⟨r, hm⟩ := method_some cfg s.kern s.ps o htg
+      rw [step_method cfg s htg ho hm] at h
+      cases heff : r.eff with
+      | none => rw [heff] at h; exact absurd (congrArg List.length h) (by simp [pushEff])
+      | some t =>
+        rw [heff] at h
+        simp only [pushEff, List.cons.injEq] at h
+        obtain ⟨rfl, _⟩ := h
+        cases hec : isEffectCall call with
+        | false => rw [method_eff_none hm hec] at heff; cases heff
+        | true =>
+          cases call <;> simp [isEffectCall] at hec <;>
+            simp only [method, Option.some.injEq] at hm <;> subst hm
+          · obtain ⟨x, hf, rfl, _, _⟩ := signalM_eff_shape _ _ _ _ _ heff
+            exact ⟨o.pid, rfl, by simp [Kernel.owner, hf], by simp⟩
+          · obtain ⟨x, a, hf, _, rfl, _⟩ := setterM_eff_shape _ _ _ _ _ _ heff
+            exact ⟨o.pid, rfl, by simp [Kernel.owner, hf], by simp⟩
 
 /-- a negative PID is refused at construction, in any state -/
 theorem C01_init_rejects_negative (s : St) (pid : Int) (h : pid < 0) :
@@ -110,7 +199,7 @@ theorem C01_exact_args (s : St) (call : Call) :
     longer in the process table (it ended; its PID may be free, or live again under another process, or
     held by a zombie of another process; is_running() may or may not have been asked in between), every
     signal method and every setter raises NoSuchProcess(pid) and nothing reaches the OS. -/
-theorem C01_recycled_raises_NSP (b0 : Nat) (hb : b0 ≠ 0) (h : List Ev) (hh : HistOK h) (call : Call)
+theorem C01_recycled_raises_NSP (b0 : Nat) (hb : BtOK cfg.createNoneTest b0) (h : List Ev) (hh : HistOK cfg.createNoneTest h) (call : Call)
     (i : Nat) (o : PObj) (htg : call.target = some i) (hec : isEffectCall call = true)
     (ho : (run cfg (St.init b0) h).ps.objs[i]? = some o)
     (hgone : ¬ Listed (run cfg (St.init b0) h).kern o) :
@@ -131,7 +220,7 @@ theorem C01_recycled_raises_NSP (b0 : Nat) (hb : b0 ≠ 0) (h : List Ev) (hh : H
     it returns normally when the kernel carried the signal out (`refusal = none`), and raises
     AccessDenied(pid) when the kernel refused with EPERM / EACCES (the logged attempt carries that errno:
     nothing happened to the process, nothing else was tried). -/
-theorem C01_live_signal_delivered (b0 : Nat) (hb : b0 ≠ 0) (h : List Ev) (hh : HistOK h)
+theorem C01_live_signal_delivered (b0 : Nat) (hb : BtOK cfg.createNoneTest b0) (h : List Ev) (hh : HistOK cfg.createNoneTest h)
     (i : Nat) (o : PObj) (m : SigMethod)
     (ho : (run cfg (St.init b0) h).ps.objs[i]? = some o)
     (hlive : Listed (run cfg (St.init b0) h).kern o) (hpid : o.pid ≠ 0) :
@@ -156,7 +245,7 @@ theorem C01_live_signal_delivered (b0 : Nat) (hb : b0 ≠ 0) (h : List Ev) (hh :
 
 /-- the same for setters: on a live incarnation, accepted values are handed to the OS exactly once, for it;
     the call returns normally when the kernel applied them and raises AccessDenied(pid) when it refused -/
-theorem C01_live_setter_applied (b0 : Nat) (hb : b0 ≠ 0) (h : List Ev) (hh : HistOK h)
+theorem C01_live_setter_applied (b0 : Nat) (hb : BtOK cfg.createNoneTest b0) (h : List Ev) (hh : HistOK cfg.createNoneTest h)
     (i : Nat) (o : PObj) (kind : SetKind) (args a : List Int)
     (ho : (run cfg (St.init b0) h).ps.objs[i]? = some o)
     (hlive : Listed (run cfg (St.init b0) h).kern o) (hargs : setterArgs cfg o.pid kind args = some a) :
@@ -215,14 +304,14 @@ theorem C01_outcome_truthful (s : St) (call : Call) (i : Nat) (o : PObj)
 
 /-- a configuration with every guard in place, independent of the translator -/
 def goodCfg : Cfg :=
-  { clk := 100, goneRaises := true, bootWriteOnce := true, createUsesCache := true,
+  { clk := 100, goneRaises := true, bootWriteOnce := true, createUsesCache := true, createNoneTest := true,
     guardSignal := true, guardNice := true, guardIonice := true, guardRlimit := true,
     guardAffinity := true, guardPpid := true, pid0Refused := true, negRejected := true,
     rlimitPid0Refused := true, sigStop := 19, sigCont := 18, sigTerm := 15, sigKill := 9,
     ioNoValue := [0, 3], affinityAll := 1024 }
 
 example : goodCfg.Good := by
-  refine ⟨⟨?_, ?_⟩, ?_, ?_, ?_, ?_, ?_, ?_, ?_, ?_, ?_, ?_, ?_, ?_, ?_⟩ <;> decide
+  refine ⟨⟨?_, ?_⟩, ?_, ?_, ?_, ?_, ?_, ?_, ?_, ?_, ?_, ?_, ?_, ?_, ?_, ?_⟩ <;> decide
 
 /-- lead L1 as a history: PID 7 ends and is reaped, is_running() notices (`_gone`), PID 7 is taken by
     another process, then kill() -/
@@ -235,7 +324,8 @@ def witnessCoincidence : List Ev :=
   [.k (.spawn 7), .c (.newObj 7), .k (.reap 7), .k (.tick 99), .k (.spawn 7), .k (.setBtime 999),
    .c .bootTime, .c (.signal 0 .kill)]
 
-example : HistOK witnessL1 ∧ HistOK witnessCoincidence := by decide
+example : HistOK cfg.createNoneTest witnessL1 ∧ HistOK cfg.createNoneTest witnessCoincidence
+    ∧ HistNoPid0 witnessL1 ∧ BtOK cfg.createNoneTest 1000 := by decide
 
 /-- with the extracted configuration both witnesses end in NoSuchProcess(7) and an empty log, and the
     hypotheses of `C01_recycled_raises_NSP` are met by a non-trivial state (PID recycled) -/
@@ -289,7 +379,7 @@ def cfgBootRewrite : Cfg := { goodCfg with bootWriteOnce := false }
 
 /-- the full statement of `C01_no_wrong_owner`, for an arbitrary configuration -/
 def NoWrongOwner_Full (c : Cfg) : Prop :=
-  ∀ (b0 : Nat), b0 ≠ 0 → ∀ (h : List Ev), HistOK h →
+  ∀ (b0 : Nat), BtOK c.createNoneTest b0 → ∀ (h : List Ev), HistOK c.createNoneTest h →
     ∀ e ∈ (run c (St.init b0) h).log, EffOK (run c (St.init b0) h).ps.objs e
 
 /-- **Lead L1 (proved).** Without the `_gone` test, `witnessL1` delivers SIGKILL to incarnation 1 of PID 7
@@ -326,6 +416,84 @@ theorem C01_bootrewrite_counterexample : ¬ NoWrongOwner_Full cfgBootRewrite := 
   cases ho
   exact absurd hw (by decide)
 
+/-- `NoWrongOwner_Full` IS the statement proved for the extracted configuration -/
+theorem C01_no_wrong_owner_full : NoWrongOwner_Full cfg := C01_no_wrong_owner
+
+/-! ## One incarnation per clock tick — the hypothesis made explicit (CHARACTERISATION, psutil documents it)
+
+psutil identifies a process by `(pid, create_time)`; the kernel publishes the start in clock ticks (field 22 of
+/proc/pid/stat).  Two incarnations of one PID created within the same tick are indistinguishable to it — "a PID is
+not recycled within one clock tick" is the assumption the upstream docs state.  In the model `spawn` stamps each new
+incarnation with a fresh tick; `spawnSameTick` is the event that violates the assumption (new incarnation, own
+`start`, but the stat file repeats the previous stamp).  Every theorem's `HistOK` / `HistOKb` excludes it; the
+statement below — `C01_no_wrong_owner` with that event allowed — is false. -/
+
+/-- `e.OK`, but same-tick spawns are allowed -/
+def Ev.OKst (ev : Ev) (nt : Bool) : Prop :=
+  match ev with
+  | .k (.spawnSameTick _) => True
+  | e => e.OK nt
+
+instance (nt : Bool) : DecidablePred (Ev.OKst · nt) := fun e => by
+  cases e with
+  | c _ => simp only [Ev.OKst]; infer_instance
+  | k ke => cases ke <;> simp only [Ev.OKst] <;> infer_instance
+
+def NoWrongOwner_SameTick_Full (c : Cfg) : Prop :=
+  ∀ (b0 : Nat), BtOK c.createNoneTest b0 → ∀ (h : List Ev), (∀ e ∈ h, e.OKst c.createNoneTest) →
+    ∀ e ∈ (run c (St.init b0) h).log, EffOK (run c (St.init b0) h).ps.objs e
+
+/-- PID 7 ends, is reaped and is taken again within the same clock tick; kill() through the old object -/
+def witnessSameTick : List Ev :=
+  [.k (.spawn 7), .c (.newObj 7), .k (.reap 7), .k (.spawnSameTick 7), .c (.signal 0 .kill)]
+
+/-- **C01_same_tick_counterexample** (characterisation of a documented assumption, not a finding).  With the extracted
+    configuration, `witnessSameTick` delivers SIGKILL to incarnation 1 of PID 7 through an object built for
+    incarnation 0: both show the same start stamp, the guard cannot tell them apart. -/
+theorem C01_same_tick_counterexample : ¬ NoWrongOwner_SameTick_Full cfg := by
+  intro H
+  have hlog : (run cfg (St.init 1000) witnessSameTick).log = [⟨.kill, 0, 7, [9], some 1, none⟩] := by decide
+  have hobj : (run cfg (St.init 1000) witnessSameTick).ps.objs[0]?
+      = some ⟨7, some (0 + cfg.clk * 1000), some (0 + cfg.clk * 1000), false, false, 0⟩ := by decide
+  obtain ⟨o, ho, _, hw, _⟩ := H 1000 (by decide) witnessSameTick (by decide) ⟨.kill, 0, 7, [9], some 1, none⟩
+    (by rw [hlog]; exact List.mem_cons_self)
+  simp only at ho hw
+  rw [hobj] at ho
+  cases ho
+  exact absurd hw (by decide)
+
+/-! ## PID 0 and the setters — CHARACTERISATION (unreachable on Linux: no PID 0 is ever listed)
+
+`_send_signal` and `_pslinux.Process.rlimit` refuse PID 0 themselves (`C01_sendSignal_refuses_zero`,
+`C01_rlimit_refuses_zero`: any state).  `nice_set`, `ionice_set`, `cpu_affinity_set` do not: through a PID-0 object
+they would call `setpriority(PRIO_PROCESS, 0, …)`, `ioprio_set(IOPRIO_WHO_PROCESS, 0, …)`, `sched_setaffinity(0, …)` —
+which act on the CALLER.  `C01_no_pid0_effect` therefore carries `HistNoPid0`; without it the statement is false.
+`Process(0)` cannot be built on Linux (`/proc/0` does not exist: NoSuchProcess; "PID 0 is not supported on Linux",
+_pslinux.py), so this is not a defect against C01 as stated. -/
+
+def NoPid0Effect_AnyPid_Full (c : Cfg) : Prop :=
+  ∀ (b0 : Nat), BtOK c.createNoneTest b0 → ∀ (h : List Ev), HistOK c.createNoneTest h →
+    ∀ e ∈ (run c (St.init b0) h).log, EffOKStrict (run c (St.init b0) h).ps.objs e
+
+/-- a (fictitious) listed PID 0, an object on it, `nice(5)`, `ionice(2, 1)`, `cpu_affinity([1])` -/
+def witnessPid0 : List Ev :=
+  [.k (.spawn 0), .c (.newObj 0), .c (.setter 0 .nice [5]), .c (.setter 0 .ionice [2, 1]), .c (.setter 0 .affinity [1]),
+   .c (.setter 0 .rlimit [7, 1, 1]), .c (.signal 0 .kill)]
+
+/-- **C01_pid0_setter_counterexample** (characterisation).  If a PID 0 were listed, the three setters without a PID-0
+    refusal would hand PID 0 to the OS (= the calling process); `rlimit` and the signal do not. -/
+theorem C01_pid0_setter_counterexample :
+    ¬ NoPid0Effect_AnyPid_Full cfg
+    ∧ (run cfg (St.init 1000) witnessPid0).log
+        = [⟨.set .affinity, 0, 0, [1], some 0, none⟩, ⟨.set .ionice, 0, 0, [2, 1], some 0, none⟩,
+           ⟨.set .nice, 0, 0, [5], some 0, none⟩] := by
+  have hlog : (run cfg (St.init 1000) witnessPid0).log
+        = [⟨.set .affinity, 0, 0, [1], some 0, none⟩, ⟨.set .ionice, 0, 0, [2, 1], some 0, none⟩,
+           ⟨.set .nice, 0, 0, [5], some 0, none⟩] := by decide
+  refine ⟨fun H => ?_, hlog⟩
+  have := (H 1000 (by decide) witnessPid0 (by decide) ⟨.set .nice, 0, 0, [5], some 0, none⟩ (by rw [hlog]; simp)).2
+  exact absurd this (by decide)
+
 /-! ## `(pid, None)` identities — CHARACTERISATION outside the property's quantifier
 
 C01 quantifies over histories of process creation, exit, reaping and PID reuse with psutil calls in between
@@ -338,7 +506,7 @@ false; its witness is replayed on the real code by the check (corpus `unknown-st
 /-- `C01_no_wrong_owner` with `HistOKb` (only "the published boot time is never 0": stat files may be hidden)
     in place of `HistOK` -/
 def NoWrongOwner_AnyReadability_Full (c : Cfg) : Prop :=
-  ∀ (b0 : Nat), b0 ≠ 0 → ∀ (h : List Ev), HistOKb h →
+  ∀ (b0 : Nat), BtOK c.createNoneTest b0 → ∀ (h : List Ev), HistOKb c.createNoneTest h →
     ∀ e ∈ (run c (St.init b0) h).log, EffOK (run c (St.init b0) h).ps.objs e
 
 /-- PID 7's stat is unreadable when the object is built (`_ident = (7, None)`); the process ends, PID 7 is taken
@@ -369,7 +537,7 @@ theorem C01_unknown_start_counterexample : ¬ NoWrongOwner_AnyReadability_Full c
     was built) the PID was held at that instant by the very incarnation the object was built for.  So the
     counterexample above needs an object with `_ident = (pid, None)`; an object with a known start is at worst
     refused too eagerly (NoSuchProcess while its stat file is hidden: `C02_unknown_start_counterexample`). -/
-theorem C01_known_start_no_wrong_owner (b0 : Nat) (hb : b0 ≠ 0) (h : List Ev) (hh : HistOKb h) :
+theorem C01_known_start_no_wrong_owner (b0 : Nat) (hb : BtOK cfg.createNoneTest b0) (h : List Ev) (hh : HistOKb cfg.createNoneTest h) :
     ∀ e ∈ (run cfg (St.init b0) h).log,
       ∃ o, (run cfg (St.init b0) h).ps.objs[e.obj]? = some o ∧ e.pid = (o.pid : Int)
         ∧ (e.kind = .kill → 0 < e.pid) ∧ (o.ident ≠ none → e.owner = some o.ghost) :=
